@@ -64,6 +64,16 @@ Proof.
 Qed.
 Print Assumptions C20_snap_scale.
 
+(** ... and a scale that IS within tolerance of a snap target gets snapped *)
+Theorem C20_snap_scale_complete :
+  forall s tol : Q, 0 < tol ->
+    (1 - tol <= Qabs s -> forall k : Z, Qabs (s - inject_Z k) < tol ->
+       exists n : Z, snap_scale s tol = Ok (inject_Z n) /\ Qabs (s - inject_Z n) < tol) /\
+    (Qabs s < 1 - tol -> tol <= Qabs s -> forall k : Z, Qabs (1 / s - inject_Z k) < tol ->
+       exists n : Z, n <> 0%Z /\ snap_scale s tol = Ok (1 / inject_Z n) /\ Qabs (1 / s - inject_Z n) < tol).
+Proof. exact snap_scale_complete. Qed.
+Print Assumptions C20_snap_scale_complete.
+
 Theorem C20_snap_scale_idempotent :
   forall s tol r : Q, 0 < tol -> tol < 1#2 ->
     snap_scale s tol = Ok r -> exists r', snap_scale r tol = Ok r' /\ r' == r.
@@ -120,7 +130,8 @@ Print Assumptions C20_clamp.
     Positive resolution, snapping to pixel fraction [o]: at least one pixel;
     the origin sits at (integer + o) pixels from 0; the span covers [x0, x1]
     up to [tol] pixel on each side; it starts less than one pixel before [x0]
-    and ends at most (1 + tol) pixel after [x1] (strictly less when x0 < x1). *)
+    and ends at most (1 + tol) pixel after [x1] (strictly less when x0 < x1;
+    less than one pixel when the interval is at least one pixel long). *)
 Theorem C20_snap_grid_snapped_pos :
   forall x0 x1 rs o tol : Q, 0 < rs -> x0 <= x1 -> 0 <= o -> o < 1 -> 0 <= tol ->
     exists tx nx k,
@@ -130,7 +141,8 @@ Theorem C20_snap_grid_snapped_pos :
       tx <= x0 + tol * rs /\ x0 - tx < rs /\
       x1 - tol * rs <= tx + inject_Z nx * rs /\
       tx + inject_Z nx * rs - x1 <= (1 + tol) * rs /\
-      (x0 < x1 -> tx + inject_Z nx * rs - x1 < (1 + tol) * rs).
+      (x0 < x1 -> tx + inject_Z nx * rs - x1 < (1 + tol) * rs) /\
+      (rs <= x1 - x0 -> tol < 1 -> tx + inject_Z nx * rs - x1 < rs).
 Proof. intros x0 x1 rs o tol Hr Hx H0 H1 Ht. apply snap_grid_some_pos; try assumption. split; assumption. Qed.
 Print Assumptions C20_snap_grid_snapped_pos.
 
@@ -145,7 +157,8 @@ Theorem C20_snap_grid_snapped_neg :
       tx + inject_Z nx * rs <= x0 + tol * (- rs) /\ x0 - (tx + inject_Z nx * rs) < - rs /\
       x1 - tol * (- rs) <= tx /\
       tx - x1 <= (1 + tol) * (- rs) /\
-      (x0 < x1 -> tx - x1 < (1 + tol) * (- rs)).
+      (x0 < x1 -> tx - x1 < (1 + tol) * (- rs)) /\
+      (- rs <= x1 - x0 -> tol < 1 -> tx - x1 < - rs).
 Proof. intros x0 x1 rs o tol Hr Hx H0 H1 Ht. apply snap_grid_some_neg; try assumption. split; assumption. Qed.
 Print Assumptions C20_snap_grid_snapped_neg.
 
